@@ -51,13 +51,17 @@ func (bucket *Bucket) UUID() (string, error) {
 func (bucket *Bucket) Close(_ context.Context) {
 	traceEnter("Bucket.Close", "%s", bucket)
 
-	unregisterBucket(bucket)
+	// Closing a handle again must not release a reference that belongs to another handle:
+	bucket.mutex.Lock()
+	alreadyClosed := bucket.closed
+	bucket.closed = true
+	bucket.mutex.Unlock()
+	if alreadyClosed {
+		return
+	}
 	verifPoint("close.mid")
 
-	bucket.mutex.Lock()
-	defer bucket.mutex.Unlock()
-
-	bucket.closed = true
+	unregisterBucket(bucket)
 }
 
 // _closeSqliteDB closes the underlying sqlite database and shuts down dcpFeeds. Must have a lock to call this function.
